@@ -41,7 +41,7 @@ def txblock(id, quick, thorough):
 
 TXBLOCK_HARNESSES = [
     txblock("txblock-1", {"maxentries": 1, "kindset": 0}, {"maxentries": 1, "kindset": 0}),
-    txblock("txblock-2", {"maxentries": 2, "kindset": 1}, {"maxentries": 2, "kindset": 0}),
+    txblock("txblock-2", {"maxentries": 2, "kindset": 2}, {"maxentries": 2, "kindset": 0}),
 ]
 def holding(id, quick, thorough):
     return {"id": id, "func": "VerifHolding", "pkg": NODE, "pkgname": "node", "load": ["./node"],
@@ -391,7 +391,7 @@ PROPS = {
     "C05": {
         "asserts": ["C05.", "uncaught-panic"],
         "harnesses": TXBLOCK_HARNESSES + HOLDING_HARNESSES,
-        "bounds": {"quick": "transaction-chain block with 1 entry of 12 kinds (valid transfer/conversion, replay of an executed/pending/rejected entry, unparsable, wrong signer, no signature, expired salt, corrupted signature, content altered after signing, signed for another chain, RCD-e key, extra ext-id) and 2-entry blocks (replay/transfer/conversion); height, block time, salt offset, amounts, balances symbolic",
+        "bounds": {"quick": "transaction-chain block with 1 entry of 12 kinds (valid transfer/conversion, replay of an executed/pending/rejected entry, unparsable, wrong signer, no signature, expired salt, corrupted signature, content altered after signing, signed for another chain, RCD-e key, extra ext-id) and 2-entry blocks (replay/transfer/conversion/unparsable/wrong signer, in any order); height, block time, salt offset, amounts, balances symbolic",
                    "thorough": "2-entry blocks over all kinds"},
         "assumptions": TXBLOCK_ASSUMPTIONS,
     },
